@@ -103,6 +103,30 @@ SUMMARY.update({
 })
 
 
+SUMMARY.update({
+ "C01-7": "V3000 reader numbers atoms by listing position (enumerate) while bonds use the written indices: atom lines not listed as 1..n give another molecule",
+ "C01-8": "V2000 bond line parsed with split(): ' 99100  1' (second endpoint >= 100) becomes one token and raises",
+ "C02-7": "shared range check reused in the serializer: rad >= 4 silently left out of the string (rad=4 and rad=5 collide with no radical)",
+ "C02-8": "V2000 property entries: atom number read from 2 instead of 3 columns — labels on atoms >= 101 land on atom n mod 100",
+ "C03-7": "mass plausibility check with <= instead of <: protium written with mass=1 is rejected by the parser",
+ "C03-8": "parser guard: sum formulas with more than 999 atoms rejected",
+ "C06-7": "ENDPTS count parsed as a single digit: a star bond with >= 10 endpoints is silently ignored (really a C07 violation: caught by C07's star job, not by C06, whose renderings do not vary the star encoding)",
+ "C06-8": "bond-type filter range(1, 10): V3000 bonds of type 10 are dropped",
+ "C07-7": "regular end of a star bond tested with 'if not index': file atom 1 (internal 0) is taken for 'no regular end' and a valid file is rejected",
+ "C07-8": "early return for D/T atom lines skips CHG/RAD",
+ "C08-7": "M  CHG/RAD supersede only the atoms they name: a stale code on an unnamed atom survives",
+ "C08-8": "V2000 counts line parsed with split(): '101100' when atoms and bonds both >= 100",
+ "C09-7": "writer avoids ending a chunk in '-': cuts at 70 but continues at 71 — the minus sign is dropped",
+ "C09-8": "charge range written as range(-15, 15): CHG=15 is not written",
+ "C10-7": "colour table padded one entry short; ELEMENT_ATTRS built with zip(): Og vanishes from the table and 'Og/' raises KeyError",
+ "C10-8": "mass plausibility check rejects grammar-valid sentences (mass < atomic number)",
+ "C11-7": "attribute keys written in the order the parser stored them",
+ "C11-8": "serializer writes rad only if in (1,2,3): rad > 3 breaks idempotence",
+ "C15-7": "_assign_final_labels recurses once per fragment: RecursionError from ~990 components",
+ "C15-8": "V2000 counts line split() (reader-level crash; outside C15's scope of canonicalize/serialize/parse — caught by C08's 300/999-atom job)",
+})
+
+
 def main():
     rows = []
     for d in sorted(glob.glob("/verif/seeded/*")):
